@@ -229,6 +229,16 @@ func init() {
 		return append(args[1].([]value), strElems(s)...)
 	})
 	B("SetString", func(fr *frame, args []value) value {
+		if r, isRope := args[1].(*rope); isRope && r.done == nil && len(r.parts) == 1 {
+			// parsing back the (not yet rendered) decimal text of a big integer: the identity
+			if l, isDec := r.parts[0].(lazyDec); isDec && l.big != nil {
+				if b := asInt64(args[2]); b == 10 || b == 0 {
+					setBig(args[0], l.big)
+					return tuple{args[0], true}
+				}
+			}
+		}
+		args[1] = force(args[1])
 		s, ok := args[1].(string)
 		if !ok {
 			panic(engineError{"big.Int.SetString on symbolic string"})
